@@ -4,7 +4,7 @@ Every random choice derives from one `random.Random(seed)` per work unit, so a r
 A request is one text line: `<op> <signed 0|1> <nbits> <frac> <args...>`.
 """
 import random, os
-VERIF = os.environ.get('SFX_VERIF') or os.path.dirname(os.path.dirname(os.path.abspath(__file__)))
+VERIF = os.environ.get('SFX_VERIF') or os.path.dirname(os.path.dirname(os.path.realpath(__file__)))
 
 WIDTHS = [8, 16, 32, 64, 128]
 
